@@ -295,6 +295,7 @@ func checkC18(c *Ctx) {
 	r.Rule("R18c", "template variables and declared path parameters coincide; parameter locations are constant; path parameters are unconditionally required", 20)
 	r.Rule("R18d", "one document per service; operation ids are RPC names", 3)
 	r.Rule("R18e", "all renderings derive from one marshalled document; format vocabulary and extension agree", 3)
+	c18OperationParameters(c)
 	r.Rule("R18g", "the documents of different services share no mutable state: no package-level variable of the OpenAPI generator or its plugin main is written while generating (a schema built by one service's generator registers its side schemas there only; shared with C15/R15c)", 1)
 	for _, rel := range []string{pkgOpenAPI, cmdOpenAPI} {
 		pk := c.P.Pkg(rel)
@@ -1260,6 +1261,76 @@ func (c *Ctx) evalParseFormat(pf *types.Func, param *string) (string, string) {
 		return "", fmt.Sprintf("parseFormat does not evaluate: open decisions %v aborted %q", usedKeys(run), run.Aborted)
 	}
 	return valText(run.Result), ""
+}
+
+// c18OperationParameters — R18h. processMethod is interpreted on a concrete method whose path has two variables and whose
+// service declares a header NAMED LIKE one of them (and a query field named like another header): the evaluated
+// operation.Parameters must contain one entry per (location, name) — in particular a path parameter for every template
+// variable. A de-duplication keyed by the name alone drops the path parameter that shares its name with a header.
+func c18OperationParameters(c *Ctx) {
+	r := c.R
+	r.Rule("R18h", "an operation declares one parameter per (location, name): a header, a path variable and a query field may share a name without displacing each other", 1)
+	f := c.P.Func(pkgOpenAPI, "Generator.processMethod")
+	if f == nil {
+		r.Unres("R18h", "processMethod", "", "not found")
+		return
+	}
+	pos := c.P.Pos(c.P.Decls[f].Pos())
+	prevC, prevE := c.W.Concrete, c.W.ExternStructs
+	c.W.Concrete, c.W.ExternStructs = true, true
+	defer func() { c.W.Concrete, c.W.ExternStructs = prevC, prevE }()
+	in := cMessage("ZqInput", fld("region", "string"), fld("cluster", "string"), fld("trace", "string"))
+	in.Fields["@GetQueryParams"] = cQueryParams([2]string{"trace", "trace"})
+	meth := cMethod("ListClusters", in, cMessage("ZqOutput", fld("v", "string")), map[string]Val{
+		"@GetMethodHTTPConfig": cHTTPConfig("/regions/{region}/clusters/{cluster}", "GET"),
+		"@GetMethodHeaders":    VList{Key: "mh", Elems: []Val{cHeader("trace", "string", "", false)}},
+	})
+	meth.Fields["Comments"] = cstruct("CommentSet", map[string]Val{"Leading": constStr("")})
+	svc := cService("Clusters", meth)
+	svc.Fields["@GetServiceHeaders"] = VList{Key: "sh", Elems: []Val{cHeader("region", "string", "", true)}}
+	svc.Fields["@GetServiceBasePath"] = constStr("")
+	g := cstruct("Generator", map[string]Val{"schemas": &VStruct{Name: "omap", Fields: map[string]Val{}},
+		"doc": cstruct("Document", map[string]Val{"Paths": cstruct("Paths", map[string]Val{"PathItems": &VStruct{Name: "omap", Fields: map[string]Val{}}})})})
+	run := c.W.NewRun(map[string]int{}, false)
+	run.InlineAll, run.FollowSlices = true, true
+	run.CallHook = c.xHookT
+	run.StartArgs(f, map[string]Val{"g": g, "service": svc, "method": meth})
+	if run.Aborted != "" || len(run.Used) > 0 {
+		r.Undec("R18h", "parameters of a concrete operation", pos, fmt.Sprintf("processMethod does not evaluate: open decisions %v aborted %q", usedKeys(run), run.Aborted))
+		return
+	}
+	var params Val
+	for _, a := range run.Assigned {
+		if a.Sel == "Parameters" {
+			params = a.Val
+		}
+	}
+	l, ok := params.(VList)
+	if !ok || l.Elems == nil {
+		r.Undec("R18h", "parameters of a concrete operation", pos, fmt.Sprintf("operation.Parameters is not a decidable list (%T)", params))
+		return
+	}
+	got := map[string]int{}
+	for _, e := range l.Elems {
+		st, ok := e.(*VStruct)
+		if !ok {
+			r.Undec("R18h", "parameters of a concrete operation", pos, "a parameter is not a structured value: "+e.key())
+			return
+		}
+		got[valText(st.Fields["In"])+":"+valText(st.Fields["Name"])]++
+	}
+	want := []string{"header:region", "header:trace", "path:cluster", "path:region", "query:trace"}
+	var missing, dup []string
+	for _, w := range want {
+		if got[w] == 0 {
+			missing = append(missing, w)
+		}
+		if got[w] > 1 {
+			dup = append(dup, w)
+		}
+	}
+	r.CheckD(len(missing) == 0 && len(dup) == 0, "R18h", "GET /regions/{region}/clusters/{cluster} with header `region`, header `trace` and query field `trace`: one parameter per (location, name)", pos,
+		fmt.Sprintf("the evaluated operation declares %v: missing %v, repeated %v — a template variable without a path parameter (or a parameter declared twice) makes the document invalid", sortedKeys(got), missing, dup), map[string]any{"parameters": sortedKeys(got)})
 }
 
 func init() { props["C18"] = checkC18 }
